@@ -756,7 +756,7 @@ impl Laid {
                 None
             }
         };
-        // clause 1: document order, no overlap (non-negative margins; as in C10_order_no_overlap every box between the two has a
+        // clause 1: document order, no overlap (non-negative margins; as in C10_order_no_overlap_partial every box between the two has a
         // non-negative used height -- a child laid out with a NEGATIVE height, e.g. a flex container whose percentage
         // padding exceeds its size, pulls the following siblings up: a different defect, outside this clause)
         if kids.iter().all(|c| self.subtree_margins_nonneg(*c)) && kids.iter().all(|c| h(*c) >= 0.0) {
